@@ -28,6 +28,7 @@ code under test.
 '''
 import datetime as _real_datetime
 import io
+import re
 import sys
 import types
 
@@ -811,3 +812,67 @@ def canon_model(res):
             events.extend([list(evt) for evt in evs])
         out.append(dict(events=events, calls=len(procs)))
     return dict(inputs=out, seen=sorted(list(item) for item in seen), pending=pending)
+
+
+# --------------------------------------------------------------------------- running a case, helpers for oracles
+
+def slim_event(evt):
+    if evt[0] == 'tx':
+        ent = evt[1]
+        dec = dict(ent['bundle'])
+        dec.pop('raw_hex', None)
+        for blk in dec.get('blocks', []):
+            if isinstance(blk.get('data'), bytes):
+                blk['data'] = blk['data'].hex()
+        if isinstance(dec.get('payload'), bytes):
+            dec['payload'] = dec['payload'].hex()
+        return ['tx', dict(route_index=ent['route_index'], size=ent['size'], bundle=dec)]
+    if evt[0] == 'deliver':
+        return ['deliver', dict(evt[1], ident=list(evt[1]['ident']))]
+    return list(evt)
+
+
+def run_impl(case):
+    ''' (canonical observations for the model comparison, JSON-able raw observations for the oracle) '''
+    (_term, tab) = coq_case(case)
+    (drv, obs) = run_case_impl(case)
+    canon = canon_impl(drv, obs, tab, case['hist'])
+    raw = [dict(events=[slim_event(evt) for evt in item['events']], actions=item['actions'], escaped=item['escaped'],
+                recv_exc=item['recv_exc'], decode_error=item['decode_error']) for item in obs]
+    return (canon, raw)
+
+
+def spec_ident(spec):
+    base = (spec.get('src') or 'dtn:none', spec.get('time', 0), spec.get('seq', 0))
+    if spec.get('frag') is not None:
+        base += tuple(spec['frag'])
+    return base
+
+
+def first_route(routes, eid):
+    for (idx, (pat, action)) in enumerate(routes):
+        if re.compile(pat).match(eid) is not None:
+            return (idx, action)
+    return (None, None)
+
+
+def expect_forward(case, spec):
+    ''' True / False / None (undetermined here: sizes near the MTU are C05's). '''
+    dest = spec.get('dest') or 'dtn:none'
+    for item in case['tx_routes']:
+        if re.compile(item['pattern']).match(dest) is not None:
+            if item.get('cl_type', 'fake') != 'fake':
+                return False
+            mtu = item.get('mtu')
+            if mtu is None:
+                return True
+            size = len(encode_bundle(spec_for_encode(spec)))
+            if mtu >= size + FRAG_MARGIN:
+                return True
+            if spec.get('frag') is not None or int(spec.get('flags', 0)) & FLAG_NO_FRAGMENT:
+                return True    # sent whole, whatever the size (C05's concern)
+            try:
+                return bool(frag_feasible(case, spec, size))
+            except AmbiguousCase:
+                return None
+    return False
